@@ -105,8 +105,8 @@ class C10(PropBase):
             return None
         i = rng.choice(stars)
         val = bsegs[i]
-        if val in v.alias:
-            return None
+        if val in v.alias or any(ch in val for ch in '*>,?'):
+            return None      # (the rule replaces a '*' by a LITERAL value: an entry whose own value is a search symbol gives none)
         return rule, '/'.join(segs[:i] + [val] + segs[i + 1:]), ['/'.join(segs)], {'pos': i, 'val': val}
     def cases(self, rng, ctx, tier):
         v = gen.vocab_from_ctx(ctx)
